@@ -666,6 +666,11 @@ class Host(HostBase):
                         if x.aligned(size) and self.ctx.oct.min_of(x) >= 0:
                             return self.from_lin(x + y)
                 return self.i.new_int(f"({la.show(self.ctx.names)} | {lb.show(self.ctx.names)})")
+            if op in ("Pow", "LShift") and self.ctx.oct.max_of(lb) == float("inf") and not (la.is_const() and la.const in (0, 1, -1) and op == "Pow"):
+                # A1: the result of b ** n / b << n needs memory (and time) proportional to n: with an exponent that
+                # nothing bounds, the host raises MemoryError or does not return within any reasonable time
+                if self.ctx.choose(("pow-unbounded", lb.key()), ["ok", "MemoryError"]) != "ok":
+                    raise self.raise_("MemoryError", f"{op} with an exponent that nothing bounds", node)
             if op in ("FloorDiv", "Mod", "RShift", "BitXor", "Pow", "Mult", "LShift", "Div"):
                 return self.i.new_int(f"({la.show(self.ctx.names)} {op} {lb.show(self.ctx.names)})")
         if op == "Add":
